@@ -286,6 +286,9 @@ fn check_case(run: &Run, case: &Case, origin: &'static str, case_seed: Option<u6
             }
         }
         acc.see("job", &format!("{job_class}/{}/alt={}", job_spec.tasks[0].kind.name(), alt_class(job_spec)));
+        if multi {
+            acc.see("multi_job_tasks", &format!("{} tasks: {}", job_spec.tasks.len(), job_spec.tasks.iter().map(|t| t.kind.name()).collect::<Vec<_>>().join(" > ")));
+        }
 
         let positions: Vec<Pos> = (0..=n).map(Pos::Concrete).chain([Pos::Any, Pos::Last]).collect();
         for pos in positions {
@@ -698,6 +701,7 @@ fn random_cfg(rng: &mut Rng) -> GenCfg {
         spare_vehicle: false,
         candidates: rng.range_usize(3, 8),
         multi_share: 0.3,
+        triple_share: 0.35,
         layers: if rng.chance(0.5) { vec![Layer::Unassigned, Layer::Distance] } else { vec![Layer::Cost, Layer::Unassigned] },
         priced: false,
         p_limits: 0.3,
